@@ -378,6 +378,8 @@ pub(crate) unsafe extern "C" fn extern_clone<T: Clone>(
     to: *mut (),
     from: *const (),
 ) {
+    #[cfg(feature = "verif")]
+    crate::verif::point("extern_clone");
     let to = to.cast::<T>();
     let from = unsafe { &*from.cast::<T>() };
 
@@ -387,6 +389,8 @@ pub(crate) unsafe extern "C" fn extern_clone<T: Clone>(
 }
 
 pub(crate) unsafe extern "C" fn extern_drop<T>(x: *mut ()) {
+    #[cfg(feature = "verif")]
+    crate::verif::point("extern_drop");
     unsafe { x.cast::<T>().drop_in_place() };
 }
 
@@ -394,6 +398,8 @@ pub(crate) unsafe extern "C" fn extern_eq<T: PartialEq + 'static>(
     x: *const (),
     y: *const (),
 ) -> bool {
+    #[cfg(feature = "verif")]
+    crate::verif::point("extern_eq");
     let x = unsafe { &*x.cast::<T>() };
     let y = unsafe { &*y.cast::<T>() };
     x.eq(y)
